@@ -136,6 +136,19 @@ def run(repo, rep, tier):
                 node = (rf.patch_nodes.get(fld) or rf.ctor_calls or [add.node])[0]
                 rep.finding("R1.1", add, node, f"the `{fld}` of the result does not depend on `{missing}.{fld}`: the content "
                             f"aggregated there is lost by the merge (a + b != fill of both chunks)", stmt=f"{fld} ignores {missing}")
+        # ---------------- R1.1d structural parameters of a + b / zero() are the operand's own
+        from ..builder import structural_missing
+        if m.structural:
+            for bf, broots, rr, rid in ((add, [sn, on], r1, "R1.1"), (repo.own_method(c, "zero"), None, r4, "R1.4")):
+                roots_ = broots or [bf.params[0]]
+                missing, rf2 = structural_missing(repo, c, m, bf, roots_, dict_fields)
+                if missing is None:
+                    continue
+                rr.ob(not missing, f"{c.name}.{bf.name}: structural parameters {m.structural} carried over")
+                for pname, node in missing:
+                    rep.finding(rid, bf, node, f"the structural parameter `{pname}` of the result of {bf.name} does not come from the operand's own "
+                                f"`{pname}` (constructor argument left to its default, or never copied): the result has different bins than "
+                                f"its operands", stmt=f"{pname} not carried over by {bf.name}")
         # ---------------- R1.1c dict-kind slots are paired by key, never by position
         for fld in m.slots:
             if m.slot_kind.get(fld) != "dict":
